@@ -110,6 +110,7 @@ func cmdWorker(args []string) {
 		bw.Flush()
 		c := genCase(*kind, *seed, *prop, i)
 		if c == nil {
+			sum.Stats["cases.empty-slot"]++
 			fmt.Fprintf(bw, "END %d\n", i)
 			continue
 		}
